@@ -319,7 +319,7 @@ type sessOpts struct {
 	ParentProof int    // for AttIssuer=delegate: 0 parent has no caveat, 1 parent names this token, 2 parent names another token,
 	// 3 parent nb null, 4 parent is `*` with no caveat, 5 parent names this token but attestation names another
 	Decoys    int
-	BadDecoys int // attestations alongside that are themselves invalid: expired, badly signed, issued by a stranger
+	BadDecoys int  // attestations alongside that are themselves invalid: expired, badly signed, issued by a stranger
 	AttFirst  bool // attestation is not the first capability of its token (then it is not considered)
 	RSAAuth   bool
 	WebAuth   bool    // the authority is identified by did:web:example.com (its key wrapped), not by a did:key
@@ -1027,7 +1027,7 @@ func init() {
 		labels := map[int]string{}
 		positions := []string{"invocation", "proof1", "proof2", "proof3", "proof4", "attestation", "attest-parent", "resolver-proof"}
 		expOffs := []int{-9, -8, -7, -100000, -1, 0, 1, 100000} // -9 unset, -8 / -7 the absolute values 0 and 1
-		nbfOffs := []int{-9, -100000, -1, 0, 1, 100000} // -9: unset
+		nbfOffs := []int{-9, -100000, -1, 0, 1, 100000}         // -9: unset
 		var todo []timedCase
 		rounds := 1
 		if o.tier == "thorough" {
